@@ -203,6 +203,7 @@ pub mod atomic {
     wrap_atomic!(AtomicU64, std::sync::atomic::AtomicU64, u64);
     wrap_atomic!(AtomicUsize, std::sync::atomic::AtomicUsize, usize);
     wrap_atomic!(AtomicU8, std::sync::atomic::AtomicU8, u8);
+    wrap_atomic!(AtomicU32, std::sync::atomic::AtomicU32, u32);
 }
 
 /// Locks that call [`yield_point`](super::yield_point) before every acquisition, so that a
